@@ -68,7 +68,8 @@ impl Check for C16 {
     }
 
     fn generate(&self, r: &mut Rng, _tier: Tier, _i: u64) -> MScn {
-        let max_ticks = 60 + r.below(240) as u32;
+        let deep = r.deep();
+        let max_ticks = (60 + r.below(240) as u32) * deep;
         let init = match r.below(4) {
             0 => InitS::Unseeded,
             1 => InitS::Known(*r.pick(&[0u16, 0xFFFF, 0x8000, 0xD000, 0x1234])),
@@ -148,7 +149,7 @@ impl Check for C16 {
         } else {
             vec![]
         };
-        let nops = 3 + r.below(12);
+        let nops = (3 + r.below(12)) * deep as u64;
         let mut ops = vec![];
         for _ in 0..nops {
             let op = match r.below(27) {
